@@ -44,13 +44,13 @@ theorem prefix_append_single {α : Type} (l : List α) (a : α) : l <+: l ++ [a]
 /-- a new cell on both sides -/
 theorem WRel.alloc {env : Env} {η : Hp} {w : World} {gw : GWorld} (hw : WRel env η w gw) {v : Val} {gv : GVal} {e : Ty}
     (hv : HasTy env η v e) (hg : VRel env η v e gv) :
-    η.le ⟨η.tys ++ [e], η.locs ++ [gw.heap.size], η.fns, η.imm⟩ ∧
-    WRel env ⟨η.tys ++ [e], η.locs ++ [gw.heap.size], η.fns, η.imm⟩ { w with store := w.store.push v }
+    η.le ⟨η.tys ++ [e], η.locs ++ [gw.heap.size], η.fns, η.imm, η.dyns⟩ ∧
+    WRel env ⟨η.tys ++ [e], η.locs ++ [gw.heap.size], η.fns, η.imm, η.dyns⟩ { w with store := w.store.push v }
       { gw with heap := gw.heap.push (refCell e gv) } ∧
-    VRel env ⟨η.tys ++ [e], η.locs ++ [gw.heap.size], η.fns, η.imm⟩ (.ref w.store.size) (.ref e) (.ptr gw.heap.size) ∧
-    HasTy env ⟨η.tys ++ [e], η.locs ++ [gw.heap.size], η.fns, η.imm⟩ (.ref w.store.size) (.ref e) := by
-  have hle : η.le ⟨η.tys ++ [e], η.locs ++ [gw.heap.size], η.fns, η.imm⟩ :=
-    ⟨prefix_append_single _ _, prefix_append_single _ _, rfl, fun _ h => h⟩
+    VRel env ⟨η.tys ++ [e], η.locs ++ [gw.heap.size], η.fns, η.imm, η.dyns⟩ (.ref w.store.size) (.ref e) (.ptr gw.heap.size) ∧
+    HasTy env ⟨η.tys ++ [e], η.locs ++ [gw.heap.size], η.fns, η.imm, η.dyns⟩ (.ref w.store.size) (.ref e) := by
+  have hle : η.le ⟨η.tys ++ [e], η.locs ++ [gw.heap.size], η.fns, η.imm, η.dyns⟩ :=
+    ⟨prefix_append_single _ _, prefix_append_single _ _, rfl, fun _ h => h, rfl⟩
   have hT : (η.tys ++ [e])[w.store.size]? = some e := by
     rw [← hw.lenT]; simp
   have hL : (η.locs ++ [gw.heap.size])[w.store.size]? = some gw.heap.size := by
@@ -93,10 +93,10 @@ theorem WRel.alloc {env : Env} {η : Hp} {w : World} {gw : GWorld} (hw : WRel en
 
 /-- a new immutable cell on the Go side only (the backing array of a slice) -/
 theorem WRel.allocImm {env : Env} {η : Hp} {w : World} {gw : GWorld} (hw : WRel env η w gw) (c : GVal) :
-    η.le ⟨η.tys, η.locs, η.fns, η.imm ++ [(gw.heap.size, c)]⟩ ∧
-    WRel env ⟨η.tys, η.locs, η.fns, η.imm ++ [(gw.heap.size, c)]⟩ w { gw with heap := gw.heap.push c } := by
-  have hle : η.le ⟨η.tys, η.locs, η.fns, η.imm ++ [(gw.heap.size, c)]⟩ :=
-    ⟨List.prefix_refl _, List.prefix_refl _, rfl, fun _ h => List.mem_append_left _ h⟩
+    η.le ⟨η.tys, η.locs, η.fns, η.imm ++ [(gw.heap.size, c)], η.dyns⟩ ∧
+    WRel env ⟨η.tys, η.locs, η.fns, η.imm ++ [(gw.heap.size, c)], η.dyns⟩ w { gw with heap := gw.heap.push c } := by
+  have hle : η.le ⟨η.tys, η.locs, η.fns, η.imm ++ [(gw.heap.size, c)], η.dyns⟩ :=
+    ⟨List.prefix_refl _, List.prefix_refl _, rfl, fun _ h => List.mem_append_left _ h, rfl⟩
   refine ⟨hle, ⟨hw.out, hw.externs, hw.lenT, hw.lenL, hw.inj, ?_, ?_, ?_, hw.cap, hw.eager⟩⟩
   · intro gl hgl
     simp only [Array.size_push]
